@@ -294,10 +294,10 @@ Lemma loop_iter_S f (k : nat) (expr : string) (count : Z) (name : string) (step 
   dor r, c3 <- process_events f ks c2;
   let '(ev, b) := r in
   let acc' := (acc ++ ev)%list in let bb' := bb_opt_union bb b in
-  dor stop, c4 <- (match k with 2%nat => eval_cond c3 expr | _ => (Ok false, c3) end);
-  if stop then (Ok (acc', bb'), c4) else
   let it' := (iteration + 1)%Z in
-  if (c_loop_limit (px_cfg c4) <? it')%Z then (Err ELoopLimit, c4)
+  if (c_loop_limit (px_cfg c3) <? it')%Z then (Err ELoopLimit, c3) else
+  dor stop, c4 <- (match k with 2%nat => eval_cond c3 expr | _ => (Ok false, c3) end);
+  if stop then (Ok (acc', bb'), c4)
   else loop_iter f k expr count name step ks it' (f64_add value step) acc' bb' c4).
 Proof. reflexivity. Qed.
 
@@ -675,11 +675,10 @@ Proof.
         eapply inv_trans; [exact I2|].
         refine (presd_rbind (process_events f ks) _ _ _ _ _ _ (inv_nn _ _ I2 Hn1) E); [apply Ipe|].
         intros [ev b] c3 r3 c3' Hn3 E3.
+        match type of E3 with (if ?bb then _ else _) = _ => destruct bb end; [injection E3 as <- <-; apply inv_refl|].
         refine (presd_rbind (fun c3 => match k with 2%nat => eval_cond c3 ex | _ => (Ok false, c3) end) _ _ _ _ _ _ Hn3 E3).
         -- intros c4 r4 c4' Hn4 E4. destruct k as [|[|[|k]]]; try (injection E4 as <- <-; apply inv_refl); eapply eval_cond_inv; eauto.
-        -- intros stop c4 r4 c4' Hn4 E4. destruct stop; [injection E4 as <- <-; apply inv_refl|].
-           match type of E4 with (if ?bb then _ else _) = _ => destruct bb end;
-             [injection E4 as <- <-; apply inv_refl | eapply Iliter; eauto].
+        -- intros stop c4 r4 c4' Hn4 E4. destruct stop; [injection E4 as <- <-; apply inv_refl | eapply Iliter; eauto].
     + (* gen_for *)
       intros e kids c r c' Hn H. rewrite gen_for_S in H. cbv zeta in H.
       destruct (eget N e "var") as [var|]; [|injection H as <- <-; apply inv_refl].
